@@ -22,7 +22,12 @@ pub struct Case {
 }
 
 const K: [usize; 8] = [0, 0, 0, 1, 1, 1, 2, 5];
-const FILLS: [char; 6] = [' ', '\t', '\n', '\u{3000}', '\u{a0}', '\u{2003}'];
+/// every Unicode White_Space code point ("the lexical parser additionally ignores every Unicode
+/// whitespace character"): the 25 characters for which `char::is_whitespace` holds, computed here
+fn blank_chars() -> &'static [char] {
+    static F: std::sync::OnceLock<Vec<char>> = std::sync::OnceLock::new();
+    F.get_or_init(|| (0u32..=0x3000).filter_map(char::from_u32).filter(|c| c.is_whitespace()).collect())
+}
 
 fn expect(sig: &str, what: &str, text: &str, got: &Out, expected: &CN) -> Check {
     match got {
@@ -53,7 +58,7 @@ fn check_spacing(sh: &Shared, fi: usize, toks: &[Token], expected: &CN, ks: &[us
         .iter()
         .enumerate()
         .map(|(i, k)| {
-            let f = if fills.is_empty() { ' ' } else { FILLS[(fills[i % fills.len()] as usize) % FILLS.len()] };
+            let f = if fills.is_empty() { ' ' } else { blank_chars()[(fills[i % fills.len()] as usize) % blank_chars().len()] };
             f.to_string().repeat(*k)
         })
         .collect();
@@ -153,7 +158,24 @@ pub fn strategy_single() -> BoxedStrategy<SingleCase> {
 pub fn small_scope() -> Vec<Case> {
     let mut out = vec![];
     for (fi, v) in crate::props::c01::small_scope() {
-        out.push(Case { fi, v, gaps: vec![3], fills: vec![1] });
+        let i = out.len();
+        out.push(Case { fi, v, gaps: vec![3], fills: vec![(i % 25) as u8, ((i / 25) % 25) as u8] });
+    }
+    // every Unicode blank on its own, at every boundary of an all-ASCII / all-Han text
+    let term = D::node(Inh, vec![D::node(Product, vec![D::word("a"), D::atom(IVar, "x")]), D::node(SetExt, vec![D::word("b")])]);
+    let values = [
+        ND::Term(term.clone()),
+        ND::Sentence(SD { term: term.clone(), punct: P::Judgement, stamp: St::Present, truth: vec![F::of(1.0), F::of(0.9)] }),
+        ND::Task(TD { budget: vec![F::of(0.5), F::of(0.75)], s: SD { term, punct: P::Goal, stamp: St::Fixed(-5), truth: vec![F::of(1.0)] } }),
+    ];
+    for w in 0..blank_chars().len() {
+        for fi in 0..3usize {
+            for v in &values {
+                for gaps in [vec![3u8], vec![6], vec![3, 0]] {
+                    out.push(Case { fi, v: v.clone(), gaps, fills: vec![w as u8] });
+                }
+            }
+        }
     }
     out
 }
@@ -233,7 +255,7 @@ pub fn streams() -> Vec<Box<dyn AnyStream>> {
             name: "nested-pairs",
             quick: 0,
             thorough: 0,
-            source: Source::Enum(Box::new(|_| Box::new(crate::props::c01::nested_pairs().into_iter().map(|(fi, v)| Case { fi, v, gaps: vec![3, 0, 1], fills: vec![1, 3] })))),
+            source: Source::Enum(Box::new(|_| Box::new(crate::props::c01::nested_pairs().into_iter().enumerate().map(|(i, (fi, v))| Case { fi, v, gaps: vec![3, 0, 1], fills: vec![(i % 25) as u8, ((i / 25) % 25) as u8] })))),
             check: Box::new(check),
         }),
         Box::new(Stream::<LongCase> {
@@ -269,7 +291,7 @@ pub fn streams() -> Vec<Box<dyn AnyStream>> {
 
 pub const PROP: Prop = Prop {
     id: "C09",
-    rule: "cases = (format, well-formed value, spacing vector, whitespace kinds): the value's token sequence (brackets, connecters, separators, prefix+name atoms, copulas, punctuation, stamp bracket/marker/signed integer, truth and budget brackets/numbers/separators) is joined with 0/1/2/5 spaces per boundary (lexical pipeline also tab, newline, U+3000, U+00A0, U+2003), plus the all-0 and all-3 vectors and the strip-everything + parse_chars macro path; stream single-boundary toggles each boundary of the formatter's own spacing in turn ; stream long-runs puts a run of 1 000 / 30 000 / 100 000 blanks at one boundary and parses on a default-stack thread; stream nested-pairs = C01's constructor-inside-constructor enumeration with uniform spacings; oracle: both pipelines return the source value; evaluations count parser calls; non-trivial = spacing differs from the formatter's own; distinct = fingerprint of (format, value, vector)",
+    rule: "cases = (format, well-formed value, spacing vector, whitespace kinds): the value's token sequence (brackets, connecters, separators, prefix+name atoms, copulas, punctuation, stamp bracket/marker/signed integer, truth and budget brackets/numbers/separators) is joined with 0/1/2/5 spaces per boundary (lexical pipeline: any of the 25 Unicode White_Space characters, each also alone at every boundary in the small scope), plus the all-0 and all-3 vectors and the strip-everything + parse_chars macro path; stream single-boundary toggles each boundary of the formatter's own spacing in turn ; stream long-runs puts a run of 1 000 / 30 000 / 100 000 blanks at one boundary and parses on a default-stack thread; stream nested-pairs = C01's constructor-inside-constructor enumeration with uniform spacings; oracle: both pipelines return the source value; evaluations count parser calls; non-trivial = spacing differs from the formatter's own; distinct = fingerprint of (format, value, vector)",
     assumptions: &["the token printer is trusted only when its concatenation equals the formatter's output with spaces deleted (else inconclusive)", "canonical form as in C01"],
     streams,
 };
